@@ -15,6 +15,16 @@ CLAIMED = {
    text="Typed-generator sessions (closures, recursion, generators, every operator and operand source, planted faults of every class) and directed corpus sessions are executed statement by statement by an independent reference interpreter and by the real pipeline in REPL and script mode; value tree, output bytes and error class must agree. Evidence lists executed instruction shapes and compile-context classes.",
    note="Trusts harness/rs as the executable README; programs relying on behaviour the README leaves open are detected by the reference and dropped (counted).",
    design="6/C01"),
+ "C05": dict(
+   technique="runtime monitoring: universal no-abort monitor (panic/fatal/step-limit/undocumented-error oracle) over hostile parseable programs in child processes, both compile modes",
+   text="Grammar-random ill-typed programs, an enumerated hostile-value x operator/statement-position matrix, token mutations of corpus programs and fault-planted typed sessions run through the real parser, compiler and VM in REPL and script mode inside child workers; any panic, Go fatal (worker death), undocumented error class, or step-limit hit where the reference interpreter terminates is a violation.",
+   note="Ill-typed programs that loop forever have no reference verdict and are counted inconclusive/diverged; programs building values above 10^6 elements are dropped before the VM; exit() is never called.",
+   design="6/C05"),
+ "C09": dict(
+   technique="runtime monitoring: invariant assertion at statement boundaries on hooked machine state (residue) + N-scaling monitor on hooked max stack pointer / live contexts at loop back-edges",
+   text="After every statement of typed and directed sessions (both compile modes) the hooked (sp, frame, closure, live-context) counts must equal their values before it (all zero after a failure). Loop programs of six loop kinds x nine body tails are run with 3/30/300 iterations; the max stack pointer per memory kind and max live contexts at back-edges must be identical.",
+   note="Relies on the verif accessors for sp/fp/closure/context counts and the step hook's per-memory maxima.",
+   design="6/C09"),
  "C15": dict(
    technique="runtime monitoring: exhaustive round-trip assertion over the operand-field space + OR-composition and function-layout sweeps (+ limit-crossing sessions)",
    text="The real EncodeSrc/New/decoders are executed on every slot x kind x address in -70000..70000 (complete), every opcode with composed operands, and the function-value layout lattice; each accepted encode must decode to exactly its inputs with all other fields zero, the only alternative being a refusal.",
